@@ -217,9 +217,13 @@ SIGNATURES = {
     "B3": [("x", "float"), ("y", "float"), ("z", "float")],
     "P2": [("c", "float"), ("pos", "tuple2")],
     "H2": [("inner", "any"), ("s", "float")],
+    "C2": [("a", "float"), ("b", "float")],
 }
-PLAIN_CTOR = {"Plain": ["p", "q"], "PlainEx": ["p", "q"]}
-PLAIN_EXCL = {"Plain": None, "PlainEx": ["q"]}
+PLAIN_CTOR = {"Plain": ["p", "q"], "PlainEx": ["p", "q"], "KW": [], "Renamed": ["p"]}     # getfullargspec(cls).args minus self
+PLAIN_EXCL = {"Plain": None, "PlainEx": ["q"], "KW": None, "Renamed": None}
+PLAIN_ARGS = {"Plain": ["p", "q"], "PlainEx": ["p", "q"], "KW": ["p"], "Renamed": ["p"]}   # keywords the harness passes
+DROPPING = ("KW", "Renamed")     # classes whose constructor arguments the walk cannot see
+FACTS = {"numpy_scalars_unwrapped": False}
 BINOPS = {"+": "SumPrior", "*": "MultiplePrior", "/": "DivisionPrior", "//": "FloorDivPrior",
           "%": "ModPrior", "**": "PowerPrior"}
 UNOPS = {"neg": "NegativePrior", "abs": "AbsolutePrior"}
@@ -279,13 +283,14 @@ def ref_round(v):
 # generator of fit specifications
 # ---------------------------------------------------------------------------------------
 class Gen:
-    ALL = ("arith", "item_number", "fixed_model", "log_gaussian", "drawer")
+    REPAIRED = ("arith", "item_number", "log_gaussian", "drawer")      # once findings, now part of every stream
+    KNOWN = ("modified", "fixed_model")                                 # features with a recorded finding: opt-in
+    ALL = REPAIRED + KNOWN
 
     def __init__(self, rng, clean=True, max_depth=2, allow=None):
         self.rng = rng
-        # `allow`: features with a recorded finding that the composition may use (none when clean)
-        self.allow = set(allow) if allow is not None else (set() if clean else set(self.ALL))
-        self.clean = not self.allow
+        self.allow = set(self.REPAIRED) | (set(allow) if allow is not None else (set() if clean else set(self.KNOWN)))
+        self.clean = not (self.allow & set(self.KNOWN))
         self.max_depth = max_depth
         self.pool = []
         self.nvars = 0
@@ -350,7 +355,7 @@ class Gen:
 
     def arith(self, depth=0):
         rng = self.rng
-        if rng.random() < 0.25:
+        if rng.random() < 0.25 and "modified" in self.allow:
             a = self.arith(depth + 1) if depth < 1 and rng.random() < 0.3 else self.prior()
             return {"t": "unop", "op": rng.choice(["neg", "neg", "abs"]), "a": a, "av": self.var()}
         op = rng.choice(["+", "*", "/", "+", "*", "//", "%", "**"])
@@ -395,6 +400,9 @@ class Gen:
                     out.append([name, {"t": "str", "v": rng.choice(["sersic", "a.b", "x", "True", "1.0"])}])
                 elif k < 0.65:
                     out.append([name, {"t": "none"}])
+                elif k < 0.74:
+                    out.append([name, rng.choice([{"t": "np", "dtype": "int64", "v": rng.randint(-5, 50)},
+                                                  {"t": "np", "dtype": "float32", "v": rng.randint(-20, 20) / 4.0}])])
                 elif k < 0.85:
                     out.append([name, self.const()])
                 else:
@@ -403,7 +411,7 @@ class Gen:
 
     def model(self, depth=0, fixed=False):
         rng = self.rng
-        names = ["A1", "A2", "A3", "B3", "A3", "A2", "P2"] + (["H2", "H2"] if depth < self.max_depth else [])
+        names = ["A1", "A2", "A3", "B3", "A3", "A2", "P2", "C2"] + (["H2", "H2"] if depth < self.max_depth else [])
         cls = rng.choice(names)
         attrs = []
         for arg, kind in SIGNATURES[cls]:
@@ -417,8 +425,8 @@ class Gen:
                 if r < 0.5:
                     attrs.append([arg, self.model(depth + 1, fixed)])
                 elif r < 0.7:
-                    pcls = rng.choice(["Plain", "PlainEx"])
-                    attrs.append([arg, {"t": "inst", "cls": pcls, "attrs": [["p", self.const()], ["q", self.const()]]}])
+                    pcls = rng.choice(["Plain", "PlainEx", "Plain", "KW", "Renamed"])
+                    attrs.append([arg, {"t": "inst", "cls": pcls, "attrs": [[a, self.const()] for a in PLAIN_ARGS[pcls]]}])
                 elif r < 0.8 and "fixed_model" in self.allow:
                     attrs.append([arg, self.model(depth + 1, True)])
                 elif r < 0.9:
@@ -426,6 +434,14 @@ class Gen:
                 else:
                     attrs.append([arg, self.coll(depth + 1)])
         e = {"t": "model", "cls": cls, "attrs": attrs, "extras": [] if fixed else self.extras()}
+        if not fixed and not has_prior_spec(e):
+            # a component without any free parameter is a feature of its own (it reloads as a plain object)
+            for kv in e["attrs"]:
+                if kv[1]["t"] == "float":
+                    kv[1] = self.prior()
+                    break
+            else:
+                e["extras"].append(["free_one", self.prior()])
         return e
 
     def coll(self, depth=0):
@@ -459,9 +475,12 @@ class Gen:
         rng = self.rng
         names = ["Emcee", "DynestyStatic", "DynestyDynamic", "PySwarmsGlobal", "PySwarmsLocal", "BFGS", "LBFGS",
                  "Zeus", "Nautilus", "UltraNest"]
-        cls = "Drawer" if "drawer" in self.allow and rng.random() < 0.6 else rng.choice(names)
+        cls = rng.choice(names + ["Drawer"])
         st = {}
+        dflt = config_defaults().get(cls, {})
         for f, kind in SEARCH_FIELDS[cls]:
+            if f in dflt and rng.random() < 0.3:
+                continue                       # left to the configuration default
             st[f] = self.setting(kind)
         s = {"cls": cls, "settings": st}
         if rng.random() < 0.3:
@@ -562,8 +581,12 @@ def features(spec):
         depth = max(depth, sum(1 for p in path if p in ("attrs", "items", "extras")))
         if t in ("binop", "unop"):
             f.add("arith")
-        if t == "unop" and n["a"]["t"] == "prior":
-            f.add("modified_bare_prior")
+        if t == "unop":
+            f.add("modified")
+        if t == "np":
+            f.add("np_value")
+        if t == "inst" and n["cls"] in DROPPING:
+            f.add("dropping_instance")
         if t == "coll" and item_number(n) != 0:
             f.add("item_number")
         if is_fixed_model(n):
@@ -625,6 +648,27 @@ def unop_name(e, rename):
     return "prior_" if v == "prior" else v
 
 
+def np_descr(e):
+    v = e["v"]
+    shown = {"int64": lambda: repr(int(v)), "float32": lambda: repr(float(v)), "bool_": lambda: repr(bool(v)),
+             "complex": lambda: repr(complex(v, 1.0))}[e["dtype"]]()
+    mod = "builtins" if e["dtype"] == "complex" else "numpy"
+    return "%s.%s:%s" % (mod, e["dtype"], shown)
+
+
+def inst_dict(e):
+    """the __dict__ an instance of a plain harness class ends up with, from its constructor keywords"""
+    d = dict((k, v) for k, v in e["attrs"])
+    if e["cls"] in ("Plain", "PlainEx"):
+        p, q = unhex(d["p"]["v"]), unhex(d["q"]["v"])
+        return e["attrs"] + [["derived", {"t": "float", "v": hx(p + q)}], ["_hidden", {"t": "float", "v": hx(17.0)}]]
+    if e["cls"] == "KW":
+        return [["p", d["p"]]]
+    if e["cls"] == "Renamed":
+        return [["value", d["p"]]]
+    raise ValueError(e["cls"])
+
+
 def cattrs(items, pool, rename):
     return clist([cpair(cstr(k), node_term(v, pool, rename)) for k, v in items])
 
@@ -648,6 +692,12 @@ def node_term(e, pool, rename=None):
         return "(NStr %s)" % cstr(e["v"])
     if t == "none":
         return "NNone"
+    if t == "np":
+        if FACTS.get("numpy_scalars_unwrapped"):
+            v = e["v"]
+            return {"int64": lambda: "(NInt %s)" % cZ(int(v)), "float32": lambda: "(NFloat %s)" % cfloat(float(v)),
+                    "bool_": lambda: "(NBool %s)" % cbool(bool(v))}[e["dtype"]]()
+        return "(NOther %s)" % cstr(np_descr(e))
     if t == "tuple":
         return "(NTuple 0%%Z %s)" % cattrs(e["members"], pool, rename)
     if t == "binop":
@@ -660,16 +710,16 @@ def node_term(e, pool, rename=None):
         return "(NUnop 0%%Z %s %s %s)" % (cstr(UNOPS[e["op"]]), cstr(unop_name(e, rename)), node_term(e["a"], pool, rename))
     if t == "model":
         cargs = clist([cstr(a) for a, _ in SIGNATURES[e["cls"]]])
+        order = [a for a, _ in SIGNATURES[e["cls"]]]       # Model.__init__ walks the constructor signature, not the keywords
+        attrs = sorted(e["attrs"], key=lambda kv: order.index(kv[0]))
         return "(NModel 0%%Z %s %s %s %s)" % (cstr(""), cstr(CLS_MODULE + "." + e["cls"]), cargs,
-                                              cattrs(e["attrs"] + e.get("extras", []), pool, rename))
+                                              cattrs(attrs + e.get("extras", []), pool, rename))
     if t == "coll":
         return "(NColl 0%%Z %s %s)" % (cZ(item_number(e)), cattrs(e["items"], pool, rename))
     if t == "inst":
-        d = dict((k, v) for k, v in e["attrs"])
-        p, q = unhex(d["p"]["v"]), unhex(d["q"]["v"])
-        attrs = e["attrs"] + [["derived", {"t": "float", "v": hx(p + q)}], ["_hidden", {"t": "float", "v": hx(17.0)}]]
         return "(NInst %s %s %s %s)" % (cstr(e["cls"]), clist([cstr(a) for a in PLAIN_CTOR[e["cls"]]]),
-                                        copt(PLAIN_EXCL[e["cls"]], lambda l: clist([cstr(x) for x in l])), cattrs(attrs, pool, rename))
+                                        copt(PLAIN_EXCL[e["cls"]], lambda l: clist([cstr(x) for x in l])),
+                                        cattrs(inst_dict(e), pool, rename))
     raise ValueError(t)
 
 
@@ -685,9 +735,28 @@ def setting_node(v):
     return "(NStr %s)" % cstr(v)
 
 
+_CONFIG = {}
+
+
+def config_defaults():
+    """identifying settings that harness/config/non_linear/*.yaml supplies when the caller passes none"""
+    if not _CONFIG:
+        import yaml
+        d = os.path.join(common.VERIF, "harness", "config", "non_linear")
+        for f in sorted(os.listdir(d)):
+            if f.endswith(".yaml"):
+                for cls, sections in (yaml.safe_load(open(os.path.join(d, f))) or {}).items():
+                    if isinstance(sections, dict) and isinstance(sections.get("search"), dict):
+                        _CONFIG[cls] = {k: v for k, v in sections["search"].items()
+                                        if v is None or isinstance(v, (bool, int, float, str))}
+    return _CONFIG
+
+
 def effective_settings(s):
-    """what the constructor leaves on the object: UltraNest resets nsteps to None when no step sampler is configured"""
-    st = dict(s["settings"])
+    """what the constructor leaves on the object: explicit keywords over configuration defaults; UltraNest resets
+    nsteps to None when no step sampler is configured"""
+    st = {f: config_defaults().get(s["cls"], {}).get(f) for f, _ in SEARCH_FIELDS[s["cls"]]}
+    st.update(s["settings"])
     if s["cls"] == "UltraNest" and st.get("stepsampler_cls") is None:
         st["nsteps"] = None
     return st
@@ -730,6 +799,8 @@ def obj_term(a):
         return "(OSeq %s)" % clist([obj_term(x) for x in a[1]])
     if t == "none":
         return "ONone"
+    if t == "other":
+        return "(OOther %s %s)" % (cstr(a[1]), cbool(a[2]))
     raise ValueError(t)
 
 
@@ -758,10 +829,12 @@ def spec_floats(spec, acc):
         if n["t"] == "float":
             acc.add(n["v"])
         if n["t"] == "inst":
-            d = dict((k, v) for k, v in n["attrs"])
-            acc.add(hx(unhex(d["p"]["v"]) + unhex(d["q"]["v"])))
-            acc.add(hx(17.0))
-    for v in spec["search"]["settings"].values():
+            for _, x in inst_dict(n):
+                if x["t"] == "float":
+                    acc.add(x["v"])
+        if n["t"] == "np" and n["dtype"] == "float32":
+            acc.add(hx(float(n["v"])))
+    for v in effective_settings(spec["search"]).values():
         if isinstance(v, float):
             acc.add(hx(v))
     return acc
@@ -825,17 +898,21 @@ def var_names(spec):
 
 
 def reload_labels(spec, how):
+    """labels of the recorded reload findings a specification may run into: a ModifiedPrior (-x, abs x) anywhere,
+    a component without free parameters.  (Arithmetic priors, list-built collections, LogGaussian priors and the
+    Drawer search used to be labelled too; they are repaired and unlabelled now.)"""
     f = features(spec)
     labels = []
-    for feat in ("arith", "item_number", "fixed_model", "log_gaussian", "drawer"):
-        if feat in f:
-            labels.append("reload:" + feat)
+    if "modified" in f:
+        labels.append("reload:modified")
+    if "fixed_model" in f:
+        labels.append("reload:fixed_model")
     return labels
 
 
 def fit_eligible(spec):
     f = features(spec)
-    if f & {"arith", "log_gaussian", "drawer"}:
+    if f & {"arith", "np_value"}:
         return False
     for _, n in walk_spec(spec["model"]):
         if n["t"] in ("str", "none", "bool", "int"):
@@ -865,7 +942,7 @@ def equal_pairs(rng, S, quick):
     vs = var_names(S)
     if vs:
         ren = {v: rng.choice(["renamed_%d" % i, "v%d" % i, "galaxy_%d" % i]) for i, v in enumerate(sorted(vs))}
-        out.append(("rename", S, with_build(S, rename=ren), ["rename:arith"]))
+        out.append(("rename", S, with_build(S, rename=ren), []))
     # sub-resolution change of a fixed value or prior parameter
     fl = sites(S, lambda x: x["t"] == "float")
     if fl:
@@ -1018,23 +1095,34 @@ def differ_pairs(rng, S, gen):
         add("arith_op", b)
     # -- search and tag -------------------------------------------------------------------------
     s = S["search"]
+    eff = effective_settings(s)
     for f, kind in SEARCH_FIELDS[s["cls"]]:
-        if s["cls"] == "UltraNest" and f == "nsteps" and s["settings"].get("stepsampler_cls") is None:
+        if s["cls"] == "UltraNest" and f == "nsteps" and eff.get("stepsampler_cls") is None:
             continue                      # not in effect without a step sampler
         b = _copy.deepcopy(S)
-        old = s["settings"][f]
+        old = eff[f]
         for _ in range(20):
             new = gen.setting(kind)
-            if new != old and not (isinstance(new, float) and isinstance(old, float) and abs(new - old) < 3e-8):
+            if new != old and not (isinstance(new, (int, float)) and isinstance(old, (int, float))
+                                   and not isinstance(new, bool) and not isinstance(old, bool) and abs(new - old) < 3e-8):
                 break
         else:
             continue
         b["search"]["settings"][f] = new
         add("search_setting:" + f, b)
+        if f not in s["settings"]:
+            # the configuration default given explicitly is the same fit
+            b = _copy.deepcopy(S)
+            b["search"]["settings"][f] = old
+            out.append({"kind": "pair", "how": "setting_default_explicit", "expect": "same", "a": S, "b": b, "labels": []})
+        if kind == "int" and isinstance(old, int) and not isinstance(old, bool) and rng.random() < 0.3:
+            b = _copy.deepcopy(S)
+            b["search"]["settings"][f] = float(old)          # 50 -> 50.0 is described differently ("50" / "50.0")
+            add("search_setting_type:" + f, b)
     b = _copy.deepcopy(S)
     other = rng.choice([c for c in SEARCH_FIELDS if c != s["cls"] and c != "Drawer"])
     if {s["cls"], other} <= {"BFGS", "LBFGS"} or rng.random() < 0.5:
-        b["search"] = {"cls": other, "settings": {f: (s["settings"][f] if f in s["settings"] and
+        b["search"] = {"cls": other, "settings": {f: (eff[f] if f in eff and
                                                     dict(SEARCH_FIELDS[s["cls"]]).get(f) == k else gen.setting(k))
                                                   for f, k in SEARCH_FIELDS[other]}}
         add("search_class", b)
